@@ -41,7 +41,7 @@ def replay(case):
 
     Escale = float(np.real(xsd.conj() @ Ad @ xsd)) + 1.0      # rounding floor: a guess that happens to be exact has E = 0
     snaps = [value_snapshot([t]) for t in (A, b, x0)]
-    kind = ('cplx' if cfg['cplx'] else 'real')
+    kind = (('mixed' if cfg['opreal'] else 'cplx') if cfg['cplx'] else 'real')
     for name in ('als', 'mals'):
         if name == 'mals' and d < 2:
             continue
